@@ -50,6 +50,7 @@ var PolicyNames = [...]string{"random", "fifo", "lifo", "sticky", "pct", "starve
 // Config is the complete description of the scheduler's behaviour for one run.
 type Config struct {
 	NumCPU     int     // value returned by NumCPU() inside the simulation
+	GoMaxProcs int     // value returned by GoMaxProcs() (runtime.GOMAXPROCS(0)); 0 = same as NumCPU
 	Policy     int     // one of Pol*
 	Param      int     // policy parameter (sticky: switch 1/Param, pct: #change points, starve: victim rank)
 	Seed       uint64  // PRNG seed for policy decisions, pool and map-order decisions
@@ -478,6 +479,25 @@ func (s *sim) allSpinning() bool {
 		}
 	}
 	return s.nparked > 0
+}
+
+// GoMaxProcs is the simulated runtime.GOMAXPROCS(0): by default equal to the
+// simulated CPU count, but a separate knob (a process may run with fewer or more
+// Ps than the machine has CPUs).
+//
+//go:norace
+func GoMaxProcs() int {
+	s := cur
+	if s == nil {
+		return runtime.GOMAXPROCS(0)
+	}
+	if s.cfg.GoMaxProcs > 0 {
+		return s.cfg.GoMaxProcs
+	}
+	if s.cfg.NumCPU > 0 {
+		return s.cfg.NumCPU
+	}
+	return runtime.GOMAXPROCS(0)
 }
 
 //go:norace
